@@ -2695,13 +2695,14 @@ func (pid *PID) doStop(ctx context.Context) error {
 
 	stopContext := newContext(ctx, pid.Name(), pid.actorSystem, pid.Dependencies()...)
 
-	// run the PostStop hook and let watchers know
-	// you are terminated
-	if err := chain.
-		New(chain.WithFailFast()).
-		AddRunner(func() error { return pid.actor.PostStop(stopContext) }).
-		AddRunner(func() error { pid.freeWatchers(ctx); return nil }).
-		Run(); err != nil {
+	// run the PostStop hook and let watchers know you are terminated. The
+	// incarnation is gone even when its PostStop hook fails (the deferred
+	// cleanup above marks it not running and resets it), so the watchers, the
+	// system's death watch among them, are told in both cases; the hook's
+	// error is still reported to the caller.
+	err := pid.actor.PostStop(stopContext)
+	pid.freeWatchers(ctx)
+	if err != nil {
 		return err
 	}
 
